@@ -10,9 +10,14 @@ terms    generated grammar terms over the parsr combinators x inputs, decided by
          three characters of a pool of line ends, other white space, control characters, quotes / backslash /
          comment characters, digits, cased and non-ASCII letters (PEG semantics do not depend on what the input
          symbols are), and the library's own named character classes (EOL, LineEnd, WS, ...) are leaves.
+         One parser object serves the whole history of a case: all inputs, then a generated selection of them once
+         more; optionally the caller edits every container of every value it gets back (append to every list) and
+         Parser.debug() is on for a generated subset of the grammar's parser objects - every parse still gives what
+         the reference gives for that input alone.  Parser.sep_by and list-valued Opt defaults are generated.
 json     JSON values of the documented subset (no non-ASCII, no backslash escapes other than \\", no
          exponent numbers) rendered with generated whitespace; json_parser.loads == json.loads == value
-         with a type-strict comparison.
+         with a type-strict comparison; the text is decoded 1-3 times in a row, optionally with the caller editing
+         the decoded containers in between and with Parser.debug() on for a subset of the grammar's parsers.
 taglang  tag expressions (token chains with ! & | , parentheses, quoted tags, /regex atoms, random
          whitespace) against an independent tokenizer-free precedence-climbing evaluator, for every
          subset of the tag universe.
@@ -39,7 +44,13 @@ RULE = ("terms: recursive strategy over Char/InSet/String/Literal/AnyChar/EOF/Se
         "the three symbols are a, b, c or (symbol map, about half of the cases) three characters of a pool of line "
         "ends (CR, LF), blanks, control characters, quotes / backslash / comment characters, digits, cased and "
         "non-ASCII letters, renamed consistently in term, reject lists and inputs; the library's named parsers "
-        "(EOL, LineEnd, WS, WSChar, Digit(s), Letter(s)) are leaves. "
+        "(EOL, LineEnd, WS, WSChar, Digit(s), Letter(s)) are leaves; Parser.sep_by(item, sep) and Opt defaults that "
+        "are lists are generated. History: one parser object parses all inputs and then up to 10 drawn ones again; in "
+        "half of the cases the caller appends to every list of every returned value before the next parse (the Opt "
+        "default objects, which are the grammar author's, excepted); in 2 of 5 cases Parser.debug() is enabled on a "
+        "drawn subset (or all) of the grammar's parser objects; every parse must give the reference's answer for that "
+        "input alone, and a returned value never holds one container object at two places. json: the text is "
+        "decoded 1-3 times by a private copy of the shipped grammar with the same two switches. "
         "Non-trivial term: has a look-ahead or choice nested under repetition or sequence AND on some input a "
         "sub-term failed after input had been consumed (real backtracking) AND it both accepted and rejected "
         "inputs; distinct by (term, build mode). json: non-trivial = nesting depth >= 2; distinct by rendered "
@@ -70,7 +81,10 @@ EXCLUDED = [
     "leading-zero numbers (parsr accepts more than JSON: claim is one-directional from values)",
     "tag expressions outside the documented syntax (!!x, '! x', bare tags containing ( ! / or quotes, "
     "bare regex not followed by whitespace); rejection of ill-formed expressions is not demanded",
-    "Parser.sep_by inside generated terms (covered through the JSON grammar)",
+    "sep_by on inputs where 'sep item' matches without a first item (',x'): the docstring neither promises nor "
+    "excludes a leading separator; such parses are executed as part of the history, their outcome is not asserted",
+    "editing the list object the grammar author passed as Opt(default=...) (it is the author's object, Opt hands it out "
+    "as it is); what the diagnostics of Parser.debug() print",
     "WithIndent / HangingString under a symbol map other than a, b, c (they skip white space, cut comments and "
     "measure columns, which the reference models only for white-space free letters): generated as Wrapper / String "
     "there; characters whose lower()/upper() is not one character; lone surrogates",
@@ -97,6 +111,8 @@ FAIL = _Fail()
 #   ["map", t, tag, reject] ["lift", [t..], tag, reject] ["wrap", t] ["rec", body]
 #   ["withindent", t]   WithIndent: pushes the current column for the duration of t (also when t fails)
 #   ["hang", chars]     HangingString(chars): reads the indentation stack; never fails
+#   ["sepby", item, sep] item.sep_by(sep): the library composes it from Opt / Many / KeepRight / Lift; its reference
+#                       meaning is that composition: item? (sep item)*, value = the list of the item values
 #   ["prim", name]      one of the library's ready-made parsers (EOL, LineEnd, WS, WSChar, Digit(s), Letter(s));
 #                       its reference meaning is PRIM_DEF[name], the definition its name documents
 
@@ -124,7 +140,7 @@ def nullable(t):
         return t[2] == 0
     if k == "lit":
         return len(t[1]) == 0
-    if k in ("eof", "opt", "until", "ref", "hang"):
+    if k in ("eof", "opt", "until", "ref", "hang", "sepby"):
         return True
     if k == "prim":
         return nullable(PRIM_DEF[t[1]])
@@ -163,7 +179,7 @@ def leftreach(t):
         return any(leftreach(c) for c in t[1])
     if k in ("many", "opt", "map", "wrap"):
         return leftreach(t[1])
-    if k == "until":
+    if k in ("until", "sepby"):
         return leftreach(t[1]) or leftreach(t[2])
     if k in ("kl", "kr", "fb", "nfb"):
         return leftreach(t[1]) or (nullable(t[1]) and leftreach(t[2]))
@@ -198,6 +214,11 @@ def normalise(t, in_rec=False, guard="a"):
         return [k, body, normalise(t[2], in_rec, guard)]
     if k == "opt":
         return [k, normalise(t[1], in_rec, guard), t[2]]
+    if k == "sepby":
+        item, sep = normalise(t[1], in_rec, guard), normalise(t[2], in_rec, guard)
+        if nullable(item) and nullable(sep):      # the repeated part (sep item) consumes
+            item = ["kr", ["char", guard], item]
+        return [k, item, sep]
     if k in ("kl", "kr", "fb", "nfb"):
         return [k, normalise(t[1], in_rec, guard), normalise(t[2], in_rec, guard)]
     if k == "map":
@@ -229,7 +250,7 @@ def effective(t, mode):
         return [k, [effective(c, mode) for c in t[1]], t[2], t[3]]
     if k in ("many", "opt"):
         return [k, effective(t[1], mode), t[2]]
-    if k in ("until", "kl", "kr", "fb", "nfb"):
+    if k in ("until", "kl", "kr", "fb", "nfb", "sepby"):
         return [k, effective(t[1], mode), effective(t[2], mode)]
     if k == "map":
         return [k, effective(t[1], mode), t[2], t[3]]
@@ -254,7 +275,8 @@ def _liftfn(P, tag, reject):
     return fn
 
 
-def build(P, t, mode, fwd=None):
+def build(P, t, mode, fwd=None, defaults=None):
+    """defaults: list collecting the mutable default objects handed to Opt (they stay the caller's objects)"""
     k = t[0]
     ops = mode == "ops"
     if k == "char":
@@ -278,7 +300,7 @@ def build(P, t, mode, fwd=None):
     if k == "ref":
         return fwd
     if k in ("seq", "choice"):
-        ch = [build(P, c, mode, fwd) for c in t[1]]
+        ch = [build(P, c, mode, fwd, defaults) for c in t[1]]
         if ops and len(ch) >= 2:
             r = ch[0]
             for c in ch[1:]:
@@ -286,37 +308,44 @@ def build(P, t, mode, fwd=None):
             return r % ("named-%s" % k)
         return P.Sequence(ch) if k == "seq" else P.Choice(ch)
     if k == "many":
-        return P.Many(build(P, t[1], mode, fwd), lower=t[2])
+        return P.Many(build(P, t[1], mode, fwd, defaults), lower=t[2])
     if k == "until":
-        a, b = build(P, t[1], mode, fwd), build(P, t[2], mode, fwd)
+        a, b = build(P, t[1], mode, fwd, defaults), build(P, t[2], mode, fwd, defaults)
         return a.until(b) if ops else P.Until(a, b)
     if k == "opt":
         if t[2] is None and ops:
-            return P.Opt(build(P, t[1], mode, fwd))
-        return P.Opt(build(P, t[1], mode, fwd), default=t[2])
+            return P.Opt(build(P, t[1], mode, fwd, defaults))
+        dflt = t[2]
+        if isinstance(dflt, list):
+            dflt = list(dflt)       # the grammar author's own list object: whatever Opt hands out is this object
+            if defaults is not None:
+                defaults.append(dflt)
+        return P.Opt(build(P, t[1], mode, fwd, defaults), default=dflt)
+    if k == "sepby":
+        return build(P, t[1], mode, fwd, defaults).sep_by(build(P, t[2], mode, fwd, defaults))
     if k in ("kl", "kr", "fb", "nfb"):
-        a, b = build(P, t[1], mode, fwd), build(P, t[2], mode, fwd)
+        a, b = build(P, t[1], mode, fwd, defaults), build(P, t[2], mode, fwd, defaults)
         if ops:
             return {"kl": lambda: a << b, "kr": lambda: a >> b, "fb": lambda: a & b, "nfb": lambda: a / b}[k]()
         return {"kl": P.KeepLeft, "kr": P.KeepRight, "fb": P.FollowedBy, "nfb": P.NotFollowedBy}[k](a, b)
     if k == "map":
-        a = build(P, t[1], mode, fwd)
+        a = build(P, t[1], mode, fwd, defaults)
         f = _mapfn(P, t[2], t[3])
         return a.map(f) if ops else P.Map(a, f)
     if k == "lift":
         r = P.Lift(_liftfn(P, t[2], t[3]))
         for c in t[1]:
-            r = r * build(P, c, mode, fwd)
+            r = r * build(P, c, mode, fwd, defaults)
         return r
     if k == "wrap":
-        return P.Wrapper(build(P, t[1], mode, fwd))
+        return P.Wrapper(build(P, t[1], mode, fwd, defaults))
     if k == "withindent":
-        return P.WithIndent(build(P, t[1], mode, fwd))
+        return P.WithIndent(build(P, t[1], mode, fwd, defaults))
     if k == "hang":
         return P.HangingString(t[1])
     if k == "rec":
         f = P.Forward()
-        body = build(P, t[1], mode, f)
+        body = build(P, t[1], mode, f, defaults)
         f <= body      # noqa  (Forward's definition operator)
         return f
     raise ValueError(k)
@@ -329,6 +358,8 @@ class Trace(object):
         self.recursed = False      # a Forward reference was followed
         self.indents = []          # indentation stack (WithIndent / HangingString)
         self.hang_read = False     # a HangingString consulted a non-empty indentation stack
+        self.lead_sep = False      # a sep_by matched "sep item" without a first item (undocumented: not asserted)
+        self.sep_empty = False     # a sep_by matched nothing
 
 
 def ev(t, s, pos, env, tr):
@@ -418,6 +449,29 @@ def ev(t, s, pos, env, tr):
     if k == "opt":
         r = ev(t[1], s, pos, env, tr)
         return r if r is not FAIL else (pos, t[2])
+    if k == "sepby":
+        vals = []
+        r = ev(t[1], s, pos, env, tr)
+        have_first = r is not FAIL
+        if have_first:
+            pos, v = r
+            vals.append(v)
+        while True:
+            r = ev(t[2], s, pos, env, tr)
+            if r is FAIL:
+                break
+            r2 = ev(t[1], s, r[0], env, tr)
+            if r2 is FAIL:
+                if r[0] > pos:
+                    tr.backtracked = True
+                break
+            pos, v = r2
+            vals.append(v)
+        if not have_first and vals:
+            tr.lead_sep = True
+        if not vals:
+            tr.sep_empty = True
+        return (pos, vals)
     if k in ("kl", "kr"):
         r1 = ev(t[1], s, pos, env, tr)
         if r1 is FAIL:
@@ -489,7 +543,7 @@ def _kinds(t, out, under=False, flags=None):
     out.add(k)
     if k in ("fb", "nfb", "choice", "until") and under:
         flags["nested"] = True
-    sub_under = under or k in ("many", "until", "seq", "lift", "kl", "kr")
+    sub_under = under or k in ("many", "until", "seq", "lift", "kl", "kr", "sepby")
     for x in t[1:]:
         if isinstance(x, list) and x and isinstance(x[0], str) and x[0] in _KINDS:
             _kinds(x, out, sub_under, flags)
@@ -500,7 +554,7 @@ def _kinds(t, out, under=False, flags=None):
 
 
 _KINDS = set(["char", "inset", "string", "lit", "any", "eof", "ref", "seq", "choice", "many", "until", "opt",
-              "kl", "kr", "fb", "nfb", "map", "lift", "wrap", "rec", "withindent", "hang", "prim"])
+              "kl", "kr", "fb", "nfb", "map", "lift", "wrap", "rec", "withindent", "hang", "prim", "sepby"])
 
 
 def _all_inputs(alpha, maxlen):
@@ -516,6 +570,14 @@ def _literals_of(t, out):
         out.append(t[1])
     for x in _subterms(t):
         _literals_of(x, out)
+    return out
+
+
+def _opt_defaults(t, out):
+    if t[0] == "opt":
+        out.append(t[2])
+    for x in _subterms(t):
+        _opt_defaults(x, out)
     return out
 
 
@@ -546,39 +608,131 @@ def _literal_inputs(term, fill="c"):
     return seen[:40]
 
 
+_EDIT_MARK = "edited-by-the-caller"
+
+
+def _edit_containers(v, keep, seen, shared):
+    """what a caller may do with a value a grammar returned: append to every list, add a key to every dict.
+    keep: ids of objects that are not the grammar's to hand out fresh (the default objects given to Opt);
+    shared: receives every container that occurs at two places of the value (editing one edits the other)"""
+    if not isinstance(v, (list, dict)) or id(v) in keep:
+        return
+    if id(v) in seen:
+        shared.append(v)
+        return
+    seen.add(id(v))
+    if isinstance(v, list):
+        for x in list(v):
+            _edit_containers(x, keep, seen, shared)
+        v.append(_EDIT_MARK)
+    else:
+        for k in sorted(v, key=repr):
+            _edit_containers(v[k], keep, seen, shared)
+        v[_EDIT_MARK] = [_EDIT_MARK]
+
+
+def _parser_nodes(root):
+    """the parser objects of a grammar, pre-order, each once (grammars are graphs: Forward, shared leaves)"""
+    out, seen, stack = [], set(), [root]
+    while stack:
+        p = stack.pop()
+        if id(p) in seen:
+            continue
+        seen.add(id(p))
+        out.append(p)
+        stack.extend(reversed(list(p.children)))
+    return out
+
+
+def _debug_selection(root, spec):
+    """spec: "all" or a list of indices (modulo) into the grammar's parser objects"""
+    nodes = _parser_nodes(root)
+    if spec == "all":
+        return nodes
+    out = []
+    for i in spec or []:
+        n = nodes[i % len(nodes)]
+        if not any(n is o for o in out):
+            out.append(n)
+    return out
+
+
 def check_terms(case):
     from insights import parsr as P
     mode = case["mode"]
     sym = case.get("sym") or ["a", "b", "c"]      # the three grammar symbols (symbol map of the strategy)
     term = normalise(case["term"], guard=sym[0])
     eff = effective(term, mode)
-    parser = P.Sequence([build(P, term, mode), P.Many(P.AnyChar)])
+    edit = bool(case.get("edit"))                 # the caller edits every container of every returned value
+    defaults = []
+    parser = P.Sequence([build(P, term, mode, None, defaults), P.Many(P.AnyChar)])
+    keep = set(id(d) for d in defaults)
     n_ok = n_fail = 0
     tr = Trace()
     inputs = list(_all_inputs(case["alpha"], case["maxlen"])) + list(case["extra"]) + _literal_inputs(eff, sym[2])
-    for s in inputs:
-        exp = ev(eff, s, 0, None, tr)
-        try:
-            got = parser(s)
-            ok = True
-        except Exception:   # the public call reports a failed parse by raising Exception
-            got = None
-            ok = False
-        if exp is FAIL:
-            n_fail += 1
-            if ok:
-                raise Violation("grammar accepts %r (value %r) but PEG semantics reject it" % (s, got),
-                                term=eff, mode=mode, input=s, got=got)
-        else:
-            n_ok += 1
-            want = [exp[1], list(s[exp[0]:])]
-            if not ok:
-                raise Violation("grammar rejects %r but PEG semantics accept it with value %r consuming %d"
-                                % (s, exp[1], exp[0]), term=eff, mode=mode, input=s, expected=want)
-            if not same(got, want):
-                raise Violation("on %r the grammar returns %r, PEG semantics prescribe %r "
-                                "[value, unconsumed rest]" % (s, got, want), term=eff, mode=mode, input=s,
-                                got=got, expected=want)
+    # history: one parser object, many parses in a row - all inputs once, then the inputs named by "again"
+    # (indices modulo) once more; the value of every parse is what a parse by a fresh parser would give
+    order = list(inputs) + [inputs[i % len(inputs)] for i in case.get("again") or []]
+    n_first = len(inputs)
+    n_lead_sep = n_sep_empty = n_shared_default = 0
+    # Parser.debug() on a generated subset of the grammar's parser objects: documented as diagnostics only
+    dbg = _debug_selection(parser, case.get("debug"))
+    dbg_before = [(p, p._debug) for p in dbg]
+    suffix = " [Parser.debug() enabled on %d of the grammar's parsers]" % len(dbg) if dbg else ""
+    try:
+        for p in dbg:
+            p.debug()
+        for step, s in enumerate(order):
+            tr.lead_sep = tr.sep_empty = False
+            exp = ev(eff, s, 0, None, tr)
+            try:
+                got = parser(s)
+                ok = True
+            except Exception:   # the public call reports a failed parse by raising Exception
+                got = None
+                ok = False
+            when = ""
+            if (dbg or step) and (ok != (exp is not FAIL) or (ok and not tr.lead_sep and not same(got, [exp[1], list(s[exp[0]:])]))):
+                # only on the way to a violation: does the history / the diagnostics switch matter?
+                try:
+                    fresh = repr(P.Sequence([build(P, term, mode), P.Many(P.AnyChar)])(s))
+                except Exception:
+                    fresh = "a rejection"
+                when = suffix + (" [parse %d by this parser object%s; a freshly built parser without diagnostics gives %s]"
+                                 % (step + 1, ", the caller edited the containers of the earlier results" if edit else "", fresh))
+            if tr.lead_sep:
+                # sep_by on "sep item" without a first item: neither documented nor excluded by the docstring;
+                # the parse is part of the history, its outcome is not asserted
+                n_lead_sep += step < n_first
+                if ok and edit:
+                    _edit_containers(got, keep, set(), [])
+                continue
+            n_sep_empty += tr.sep_empty and step < n_first
+            if exp is FAIL:
+                n_fail += step < n_first
+                if ok:
+                    raise Violation("grammar accepts %r (value %r) but PEG semantics reject it%s" % (s, got, when),
+                                    term=eff, mode=mode, input=s, got=got)
+            else:
+                n_ok += step < n_first
+                want = [exp[1], list(s[exp[0]:])]
+                if not ok:
+                    raise Violation("grammar rejects %r but PEG semantics accept it with value %r consuming %d%s"
+                                    % (s, exp[1], exp[0], when), term=eff, mode=mode, input=s, expected=want)
+                if not same(got, want):
+                    raise Violation("on %r the grammar returns %r, PEG semantics prescribe %r "
+                                    "[value, unconsumed rest]%s" % (s, got, want, when), term=eff, mode=mode, input=s,
+                                    got=got, expected=want)
+                if edit:
+                    shared = []
+                    _edit_containers(got, keep, set(), shared)
+                    if shared:
+                        raise Violation("on %r the grammar returns a value in which one container object stands at "
+                                        "two places (after the caller's edit: %r): editing one part of the value "
+                                        "changes another%s" % (s, got, when), term=eff, mode=mode, input=s, got=got)
+    finally:
+        for p, d in dbg_before:
+            p.debug(d)
     kinds = set()
     flags = {"nested": False}
     _kinds(eff, kinds, False, flags)
@@ -595,6 +749,18 @@ def check_terms(case):
         labels.append("map/lift-raised-Backtrack")
     if tr.recursed:
         labels.append("recursion-followed")
+    labels.append("caller-edits-results" if edit else "results-left-alone")
+    labels.append("debug=" + ("off" if not dbg else "all" if case.get("debug") == "all" else "subset"))
+    if dbg and any(not s.endswith("\n") for s in inputs) and any(s.endswith("\n") for s in inputs):
+        labels.append("debug:inputs-with-and-without-final-newline")
+    if len(order) > n_first:
+        labels.append("parsed-again")
+    if n_sep_empty:
+        labels.append("sep_by-empty-match")
+    if n_lead_sep:
+        labels.append("sep_by-leading-separator(unasserted)")
+    if any(isinstance(x, list) for x in _opt_defaults(eff, [])):
+        labels.append("opt-default-is-a-list")
     if n_ok and n_fail:
         labels.append("accepts-and-rejects")
     elif n_ok:
@@ -645,7 +811,11 @@ def _ext(ch):
         st.tuples(st.just("choice"), st.lists(ch, min_size=1, max_size=3)).map(list),
         st.tuples(st.just("many"), ch, st.integers(0, 2)).map(list),
         st.tuples(st.just("until"), ch, ch).map(list),
-        st.tuples(st.just("opt"), ch, st.one_of(st.none(), st.just("dflt"), st.just(0))).map(list),
+        st.tuples(st.just("opt"), ch, st.one_of(st.none(), st.just("dflt"), st.just(0), st.just([]), st.just(["a"]))).map(list),
+        # item.sep_by(sep): any item, any separator; and the everyday shape (one-symbol items, one-symbol separator)
+        st.tuples(st.just("sepby"), ch, ch).map(list),
+        st.tuples(st.just("sepby"), st.one_of(st.tuples(st.just("inset"), st.sampled_from(["a", "ab", "ac"])).map(list), ch),
+                  st.tuples(st.just("char"), st.sampled_from("bc")).map(list)).map(list),
         st.tuples(st.just("kl"), ch, ch).map(list), st.tuples(st.just("kr"), ch, ch).map(list),
         st.tuples(st.just("fb"), ch, ch).map(list), st.tuples(st.just("nfb"), ch, ch).map(list),
         st.tuples(st.just("map"), ch, st.integers(0, 2), rej).map(list),
@@ -768,7 +938,7 @@ def concretise(t, sym, alpha):
         return [k, [concretise(c, sym, alpha) for c in t[1]], t[2], _sym_value(t[3], sym)]
     if k in ("many", "opt"):
         return [k, concretise(t[1], sym, alpha), t[2]]
-    if k in ("until", "kl", "kr", "fb", "nfb"):
+    if k in ("until", "kl", "kr", "fb", "nfb", "sepby"):
         return [k, concretise(t[1], sym, alpha), concretise(t[2], sym, alpha)]
     if k == "map":
         return [k, concretise(t[1], sym, alpha), t[2], _sym_value(t[3], sym)]
@@ -841,6 +1011,11 @@ _RAW_TERM = st.recursive(_leaf(), _ext, max_leaves=8)
 _MODE = st.sampled_from(["ctor", "ops"])
 _CASE_ALPHA = st.sampled_from(["abA", "aAB", "abc"])
 _EXTRA = st.lists(st.text("abcAB", min_size=4, max_size=9), max_size=8)
+# history of one parser object: which inputs are parsed once more at the end (indices, modulo), whether the caller
+# edits the containers of every value it gets back, and on which of the grammar's parser objects Parser.debug() is on
+_AGAIN = st.lists(st.integers(0, 60), max_size=10)
+_EDIT = st.booleans()
+_DEBUG = st.one_of(st.just([]), st.just([]), st.just([]), st.lists(st.integers(0, 40), min_size=1, max_size=5), st.just("all"))
 
 
 @st.composite
@@ -853,13 +1028,14 @@ def _term_case(draw, tier):
     else:
         alpha = "abc"
     extra = draw(_EXTRA)
+    again, edit, debug = draw(_AGAIN), draw(_EDIT), draw(_DEBUG)
     alpha = _uniq(_sym_text(alpha, sym))
     for ch in sym:                       # a non-letter has no other case: keep three symbols
         if len(alpha) < 3 and ch not in alpha:
             alpha += ch
     t = normalise(concretise(raw, sym, "".join(sym) + alpha), guard=sym[0])
     return {"term": t, "mode": mode, "alpha": alpha, "maxlen": 3 if tier == "quick" else 5,
-            "extra": [_sym_text(x, sym) for x in extra], "sym": sym}
+            "extra": [_sym_text(x, sym) for x in extra], "sym": sym, "again": again, "edit": edit, "debug": debug}
 
 
 def strat_terms(tier):
@@ -948,6 +1124,21 @@ def _walk(v):
                 yield y
 
 
+_private_code = {}
+
+
+def _private_copy(module):
+    import types
+    path = module.__file__
+    if path not in _private_code:       # the compiled source is immutable: compiled once per process
+        with open(path) as f:
+            _private_code[path] = compile(f.read(), path, "exec")
+    mod = types.ModuleType("vp_c19_private_" + module.__name__.rsplit(".", 1)[-1])
+    mod.__file__ = path
+    exec(_private_code[path], mod.__dict__)
+    return mod
+
+
 def check_json(case):
     from insights.parsr.examples import json_parser
     value = case["value"]
@@ -965,14 +1156,44 @@ def check_json(case):
     ref = json.loads(text)
     if not same(ref, value):
         raise ValueError("harness renderer is wrong: %r -> %r" % (value, text))
+    # history: the grammar is one module-level object that decodes document after document.  The same text is
+    # decoded "times" times; with "edit" the caller edits every container of each decoded value (append to every
+    # list, add a key to every dict) before the next decode.  Parser.debug() (diagnostics only) is switched on
+    # for a generated subset of the grammar's parser objects and restored afterwards.
+    edit = bool(case.get("edit"))
+    times = 1 + (case.get("again") or 0)
+    if edit or times > 1 or case.get("debug"):
+        # a history gets its own copy of the shipped grammar (the module's source executed into a private module
+        # object), so that the outcome of a case never depends on what earlier cases did with the shared one
+        json_parser = _private_copy(json_parser)
+    dbg = _debug_selection(json_parser.Top, case.get("debug"))
+    dbg_before = [(p, p._debug) for p in dbg]
+    suffix = " [Parser.debug() enabled on %d of the grammar's parsers]" % len(dbg) if dbg else ""
     try:
-        got = json_parser.loads(text)
-    except Exception as e:   # parsr reports parse errors as plain Exception
-        raise Violation("JSON grammar rejects %r which json.loads decodes to %r" % (text, ref), text=text,
-                        error=str(e)[:300])
-    if not same(got, ref):
-        raise Violation("JSON grammar decodes %r to %r, json.loads to %r" % (text, got, ref), text=text,
-                        got=repr(got), expected=repr(ref))
+        for p in dbg:
+            p.debug()
+        for step in range(times):
+            when = suffix + (" [decode %d of the same text%s]"
+                             % (step + 1, ", the caller edited the containers of the earlier results" if edit else "")
+                             if step else "")
+            try:
+                got = json_parser.loads(text)
+            except Exception as e:   # parsr reports parse errors as plain Exception
+                raise Violation("JSON grammar rejects %r which json.loads decodes to %r%s" % (text, ref, when), text=text,
+                                error=str(e)[:300])
+            if not same(got, ref):
+                raise Violation("JSON grammar decodes %r to %r, json.loads to %r%s" % (text, got, ref, when), text=text,
+                                got=repr(got), expected=repr(ref))
+            if edit:
+                shared = []
+                _edit_containers(got, (), set(), shared)
+                if shared:
+                    raise Violation("JSON grammar decodes %r to a value in which one container object stands at two "
+                                    "places (after the caller's edit: %r); json.loads gives independent containers%s"
+                                    % (text, got, when), text=text, got=repr(got))
+    finally:
+        for p, d in dbg_before:
+            p.debug(d)
     labels = ["depth=%d" % min(_depth(value), 4)]
     nodes = list(_walk(value))
     if any(isinstance(x, list) and x and not x[0] for x in nodes):
@@ -989,6 +1210,11 @@ def check_json(case):
         if u in ("empty-container", "before-colon"):
             labels.append("ws:" + u)
     labels.append("render=dumps" if case.get("dumps") is not None else "render=slots")
+    labels.append("caller-edits-results" if edit else "results-left-alone")
+    labels.append("decoded-%s" % ("once" if times == 1 else "again"))
+    labels.append("debug=" + ("off" if not dbg else "all" if case.get("debug") == "all" else "subset"))
+    if dbg:
+        labels.append("debug:text-ends-with-newline" if text.endswith("\n") else "debug:text-without-final-newline")
     return {"nontrivial": _depth(value) >= 2, "labels": labels, "key": text}
 
 
@@ -1013,14 +1239,18 @@ _jvalue = st.recursive(_jscalar, lambda ch: st.one_of(st.lists(ch, max_size=4),
                                                       st.dictionaries(_jstr, ch, max_size=4)), max_leaves=14)
 
 
+_JDEBUG = st.one_of(st.just([]), st.just([]), st.just([]), st.lists(st.integers(0, 80), min_size=1, max_size=5), st.just("all"))
+
+
 @st.composite
 def _json_case(draw):
     value = draw(_jvalue)
+    hist = {"edit": draw(st.booleans()), "again": draw(st.sampled_from([0, 1, 1, 2])), "debug": draw(_JDEBUG)}
     if draw(st.integers(0, 3)) == 0:
         seps = draw(st.sampled_from([None, [",", ":"], [", ", ": "], [" , ", " : "], [",\n", ":\t"], [" ,", " :"]]))
         indent = draw(st.sampled_from([None, 0, 1, 2, 4, "\t"]))
-        return {"value": value, "dumps": {"indent": indent, "separators": seps}}
-    return {"value": value, "ws": draw(st.lists(st.integers(0, len(_WS) - 1), min_size=1, max_size=12)), "dumps": None}
+        return dict(hist, value=value, dumps={"indent": indent, "separators": seps})
+    return dict(hist, value=value, ws=draw(st.lists(st.integers(0, len(_WS) - 1), min_size=1, max_size=12)), dumps=None)
 
 
 def strat_json(tier):
@@ -1157,10 +1387,21 @@ def check_taglang(case):
     ch = case["expr"]
     text = render_chain(ch)
     toks = _tokens(ch, [])
+    # Parser.debug() (diagnostics only) on a generated subset of the grammar's parser objects, restored afterwards
+    dbg = _debug_selection(taglang.parse, case.get("debug"))
+    dbg_before = [(p, p._debug) for p in dbg]
     try:
-        pred = taglang.parse(text)
-    except Exception as e:   # parsr reports parse errors as plain Exception
-        raise Violation("taglang rejects the well-formed expression %r" % (text,), text=text, error=str(e)[:300])
+        for p in dbg:
+            p.debug()
+        try:
+            pred = taglang.parse(text)
+        except Exception as e:   # parsr reports parse errors as plain Exception
+            raise Violation("taglang rejects the well-formed expression %r%s"
+                            % (text, " [Parser.debug() enabled on %d of the grammar's parsers]" % len(dbg) if dbg else ""),
+                            text=text, error=str(e)[:300])
+    finally:
+        for p, d in dbg_before:
+            p.debug(d)
     n_true = 0
     for bits in range(1 << len(UNIVERSE)):
         tags = [t for i, t in enumerate(UNIVERSE) if bits >> i & 1]
@@ -1190,6 +1431,7 @@ def check_taglang(case):
     collect(ch)
     labels = ["op:" + o for o in sorted(ops)]
     labels.append("constant" if n_true in (0, 1 << len(UNIVERSE)) else "contingent")
+    labels.append("debug=" + ("off" if not dbg else "all" if case.get("debug") == "all" else "subset"))
     mixes = _mixes_levels(ch)
     if mixes:
         labels.append("mixes-levels-unparenthesised")
@@ -1218,7 +1460,9 @@ def _chain_of(atom):
 def _tag_expr():
     atoms = st.recursive(_atom_leaf, lambda a: st.one_of(a, st.builds(lambda c: {"group": c}, _chain_of(a))),
                          max_leaves=8)
-    return st.builds(lambda c: {"expr": c}, _chain_of(atoms))
+    return st.builds(lambda c, d: {"expr": c, "debug": d}, _chain_of(atoms),
+                     st.one_of(st.just([]), st.just([]), st.just([]), st.lists(st.integers(0, 60), min_size=1, max_size=5),
+                               st.just("all")))
 
 
 def strat_taglang(tier):
@@ -1470,6 +1714,18 @@ def selftest():
     assert normalise(normalise(rec)) == normalise(rec)
     assert effective(["seq", [["seq", [a, b]], c]], "ops") == ["seq", [a, b, c]]
     assert effective(["seq", [["seq", [a, b]], c]], "ctor") == ["seq", [["seq", [a, b]], c]]
+    # sep_by = item? (sep item)*; a separator without a following item is not consumed
+    sb = ["sepby", a, b]
+    assert run(sb, "ababc") == [3, ["a", "a"]] and run(sb, "ab") == [1, ["a"]] and run(sb, "c") == [0, []]
+    assert run(["sepby", ["opt", a, 0], b], "bba") == [3, [0, 0, "a"]]
+    tq = Trace()
+    assert ev(sb, "ba", 0, None, tq) == (2, ["a"]) and tq.lead_sep and not tq.sep_empty
+    assert normalise(["sepby", ["opt", a, None], ["opt", b, None]])[1][0] == "kr"
+    v = [[], {"k": []}]
+    v.append(v[0])
+    sh = []
+    _edit_containers(v, (), set(), sh)
+    assert sh == [v[0]] and v[0] == [_EDIT_MARK] and v[1]["k"] == [_EDIT_MARK] and v[1][_EDIT_MARK] == [_EDIT_MARK]
     # named parsers of the library and the symbol map
     assert run(["many", ["prim", "EOL"], 0], "\r\n\nx") == [3, ["\r", "\n", "\n"]]
     assert run(["seq", [["prim", "Letters"], ["prim", "LineEnd"]]], "ab") == [2, ["ab", None]]
